@@ -38,7 +38,7 @@ def cases(tier, seed):
 
 def pairs22_none(tier, T, pairs):
     import itertools
-    return pairs if tier != 'quick' else list(itertools.combinations_with_replacement(T[:4], 2))[:6]
+    return list(itertools.combinations_with_replacement(T[:4], 2))[:6]
 
 
 def manager_cases(tier):
